@@ -34,6 +34,14 @@ pub(crate) mod uni_h {
 pub(crate) mod pattern_h {
     include!(concat!(env!("NUCLEO_VERIF_DIR"), "/matcher/pattern_h.rs"));
 }
+#[allow(dead_code, unused_imports, unused_macros, unused_variables, unused_assignments, unexpected_cfgs)]
+pub(crate) mod compose_h {
+    include!(concat!(env!("NUCLEO_VERIF_DIR"), "/matcher/compose_h.rs"));
+}
+#[allow(dead_code, unused_imports, unused_macros, unused_variables, unused_assignments, unexpected_cfgs)]
+pub(crate) mod utf32_h {
+    include!(concat!(env!("NUCLEO_VERIF_DIR"), "/matcher/utf32_h.rs"));
+}
 #[cfg(not(kani))]
 #[allow(dead_code, unused_imports, unused_macros, unused_variables, unused_assignments, unexpected_cfgs)]
 pub(crate) mod replay {
